@@ -156,6 +156,7 @@ pub fn core_families(rep: &mut Report, thorough: bool) {
 	if thorough {
 		run_into(rep, "N-flavours", fam::fam_pairs_of(&fam::nested_specs(), "Nf", body, &FLAVOURS[1..]), &cfg);
 		run_into(rep, "E3", fam::fam_e3(Body { touch: true, yield_mid: false, panic: false }), &cfg);
+		run_into(rep, "N3", fam::fam_triples(Body { touch: true, yield_mid: false, panic: false }), &cfg);
 		for pb in [2u32, 3] {
 			let cfg4 = Cfg { max_preemptions: Some(pb), ..cfg.clone() };
 			run_into(rep, &format!("E4-4/pb{}", pb), fam::fam_e4(4, Body { touch: true, yield_mid: false, panic: false }), &cfg4);
@@ -168,6 +169,23 @@ pub fn check_core(prop: &str, tier: &str) -> ! {
 	let mut rep = Report::new(prop, tier, "model_checking");
 	common_assumptions(&mut rep);
 	core_families(&mut rep, tier == "thorough");
+	if prop == "C05" {
+		// the release audit is also the only oracle that sees a wrong-mode / foreign release on paths that only
+		// other families exercise: retrying back-offs (family R), unwinding after a user panic, poison programs
+		let cfg = Cfg { verdict_props: vec!["C05".into()], ..Cfg::default() };
+		let t = std::time::Instant::now();
+		let progs = fam::fam_c09(tier == "thorough");
+		let fr = run_family_with("R", &progs, &cfg, None);
+		eprintln!("  family R programs={} states={} [{:.1}s]", fr.programs, fr.stats.states, t.elapsed().as_secs_f64());
+		absorb(&mut rep, &progs, &cfg, fr);
+		run_into(&mut rep, "A2+panic", fam::with_panics(&fam::fam_a(2, true, Body::TOUCH)), &cfg);
+		run_into(&mut rep, "B+panic", fam::with_panics(&fam::fam_b(Body::TOUCH, &[(true, true), (true, false), (false, false)])), &cfg);
+		run_into(&mut rep, "X+panic", fam::with_panics(&fam::fam_pairs_of(&fam::mixed_specs(), "X", Body::TOUCH, &[Flavour::Guard, Flavour::ScopedTryOwned])), &cfg);
+		run_into(&mut rep, "P", fam::fam_poison(tier == "thorough"), &cfg);
+		if tier == "thorough" {
+			run_into(&mut rep, "N+panic", fam::with_panics(&fam::fam_pairs_of(&fam::nested_specs(), "N", Body::TOUCH, &FLAVOURS)), &cfg);
+		}
+	}
 	rep.set("rule", "explicit-state search: every interleaving (at raw-lock-operation and mid-section yield granularity) of every program of each listed family, states de-duplicated on a canonical fingerprint; each transition is one real execution step of happylock under the controlled scheduler");
 	rep.finish()
 }
@@ -226,7 +244,7 @@ pub fn check_c11(tier: &str) -> ! {
 	let thorough = tier == "thorough";
 	let mut rep = Report::new("C11", tier, "model_checking");
 	common_assumptions(&mut rep);
-	let cfg = Cfg { retry_rounds: 2, verdict_props: vec!["C11".into(), "C01".into(), "C06".into()], ..Cfg::default() };
+	let cfg = Cfg { retry_rounds: 2, verdict_props: vec!["C11".into(), "C01".into(), "C06".into(), "C05".into()], ..Cfg::default() };
 	let body = Body::TOUCH;
 	let mut fams: Vec<(&str, Vec<Program>)> = vec![
 		("A2+panic", fam::with_panics(&fam::fam_a(2, true, body))),
@@ -248,7 +266,8 @@ pub fn check_c11(tier: &str) -> ! {
 	// histories with several panics in a row (a second panic on an already poisoned Poisonable, a panic after
 	// a failed try, ...): menu search over the poisonable / plain programs with the C11 oracles as verdict
 	crate::menuchecks::c11_menu(&mut rep, thorough);
-	let is_c11 = |v: &Viol| (v.prop == "C01" && v.key.starts_with("deadlock|")) || (v.prop == "C06" && (v.key.starts_with("key-lost") || (v.key.starts_with("probe-mismatch|after-") && v.key.contains("panic"))));
+	// every release issued while a panic unwinds a hold must be a legal one ("released exactly once"): the audit is part of C11 here
+	let is_c11 = |v: &Viol| v.prop == "C05" || (v.prop == "C01" && v.key.starts_with("deadlock|")) || (v.prop == "C06" && (v.key.starts_with("key-lost") || (v.key.starts_with("probe-mismatch|after-") && v.key.contains("panic"))));
 	let moved: Vec<Viol> = rep.xrefs.iter().filter(|v| is_c11(v)).cloned().collect();
 	rep.xrefs.retain(|v| !is_c11(v));
 	for mut v in moved {
